@@ -626,6 +626,29 @@ def env_lit(args_lit, family, env):
     return "(env_of " + coqlist(items) + ")"
 
 
+def eval_sections(name, texts, timeout=1200):
+    """texts: HEADER + one `Definition cases` + one Eval each.  Packs them into few files (coqc start-up
+    dominates), returns [(ok, [list per Eval])] per section."""
+    files, cur, size = [], [], 0
+    for i, t in enumerate(texts):
+        body = t[len(HEADER):].replace("cases", f"cases{i}")
+        if cur and size + len(body) > 350000:
+            files.append(cur)
+            cur, size = [], 0
+        cur.append(body)
+        size += len(body)
+    if cur:
+        files.append(cur)
+    res = []
+    for secs, (ok, out) in zip(files, vlib.coq_eval_many(name, [HEADER + "".join(f) for f in files], timeout=timeout)):
+        lists = vlib.parse_all_eval_lists(out)
+        if not ok or len(lists) != len(secs):
+            res += [(False, out)] * len(secs)
+        else:
+            res += [(True, l) for l in lists]
+    return res
+
+
 # ---------------------------------------------------------------------------------------------
 # L1
 
@@ -684,17 +707,16 @@ def correspondence(ctx):
     texts, shards = [], []
     SH = 250
     for s in range(0, len(cases), SH):
-        texts.append(HEADER + f"Definition cases := {coqlist(cases[s:s + SH])}.\nEval vm_compute in failing ({L1_TEST}) cases.\n")
+        texts.append(HEADER + f"Definition cases : list (list var * list op * rule * list nat * list op) := {coqlist(cases[s:s + SH])}.\nEval vm_compute in failing ({L1_TEST}) cases.\n")
         shards.append(("rw", s))
     for s in range(0, len(fix_cases), 4 * SH):
-        texts.append(HEADER + f"Definition cases := {coqlist(fix_cases[s:s + 4 * SH])}.\nEval vm_compute in failing ({FIX_TEST}) cases.\n")
+        texts.append(HEADER + f"Definition cases : list (list op * rule * list nat) := {coqlist(fix_cases[s:s + 4 * SH])}.\nEval vm_compute in failing ({FIX_TEST}) cases.\n")
         shards.append(("fix", s))
     dis = []
-    for (kind, s), (ok, out) in zip(shards, vlib.coq_eval_many("c17l1_", texts, timeout=900)):
-        lists = vlib.parse_all_eval_lists(out)
-        if not ok or len(lists) != 1:
+    for (kind, s), (ok, out) in zip(shards, eval_sections("c17l1_", texts)):
+        if not ok:
             return [{"name": "cases-file", "detail": out[-2000:]}]
-        for idx in lists[0]:
+        for idx in out:
             m = (meta if kind == "rw" else fix_meta)[s + idx]
             dis.append({"name": "L1:rewrite" if kind == "rw" else "L1:model-applies-at-fixpoint", **m})
     return dis
@@ -719,13 +741,12 @@ def l2_eval(batch):
             args, b = r["before"]
             _, a = r["after"]
             items.append(f"({args}, {b}, {a}, {coqlist(env_lit(args, fam, e) for e in envs)})")
-        texts.append(HEADER + f"Definition cases := {coqlist(items)}.\nEval vm_compute in map ({L2_TEST}) cases.\n")
+        texts.append(HEADER + f"Definition cases : list (list var * list op * list op * list env) := {coqlist(items)}.\nEval vm_compute in map ({L2_TEST}) cases.\n")
     codes = []
-    for ok, out in vlib.coq_eval_many("c17l2_", texts, timeout=900):
-        lists = vlib.parse_all_eval_lists(out)
-        if not ok or len(lists) != 1:
+    for ok, out in eval_sections("c17l2_", texts):
+        if not ok:
             raise RuntimeError("L2 cases file failed: " + out[-1500:])
-        codes += lists[0]
+        codes += out
     assert len(codes) == len(batch), (len(codes), len(batch))
     return codes
 
